@@ -145,7 +145,9 @@ class TableMachine:
                 st.table = Table("T", width=w, height=h)
                 st.model = GridModel([[None] * w for _ in range(h)], w)
         elif seed["kind"] == "file":
-            doc = Document(f"/repo/tests/samples/{seed['file']}")
+            import os
+
+            doc = Document(os.path.join(os.environ.get("ODFDO_REPO", "/repo"), "tests/samples", seed["file"]))
             st.doc = doc
             st.table = doc.body.get_tables()[seed["table"]]
             elem = st.table._Element__element
